@@ -294,7 +294,8 @@ SPEC = Property(
           "vector of per-item outcomes over {value, value with status 0, 0, -70401..-70412, +70402, -1, -12345, 5} for n <= 3 (exhaustive) "
           "and random for n = 4; 204 vs 207; request-wide status with full/partial/empty lists; malformed entries (true, 3, \"x\", null, {}, "
           "id-less dicts, lists) and duplicates. Non-trivial: a mixed vector (>=1 accepted and >=1 rejected), a positive or unknown code, "
-          "a malformed entry, or a request-wide error."),
+          "a malformed entry, or a request-wide error. Reads through the request path take the ids as list, set, tuple, iterator, generator or key view; "
+          "CoAP read batches include characteristics without read permission."),
     layers=LAYERS,
     assumptions=["conformant reply shape: a 207 write reply lists every written characteristic with a status",
                  "a write call that raises a library exception for a rejected or malformed reply is allowed ('or the call fails')"],
